@@ -94,6 +94,27 @@ def run_case(rng, idx, tier):
                 "contact_forces", k1, k2, placement, name, e, np.asarray(got).tolist(), np.asarray(want).tolist())})
 
     rel("action-reaction f12 = -f21", w12[:3], -w21[:3], None)
+    # documented option return_details=True must not change the wrenches (same inputs: compared at 1e-9)
+    a, b = bodies()
+    try:
+        rd = hc.contact_forces(a, b, return_details=True)
+        ev["relations_checked"] += 1
+        ed = max(float(np.linalg.norm(np.asarray(rd[1], float) - w12)), float(np.linalg.norm(np.asarray(rd[2], float) - w21))) / max(
+            1e-300, float(np.linalg.norm(w12)) + float(np.linalg.norm(w21)))
+        worst["return_details changes wrenches"] = max(worst.get("return_details changes wrenches", 0.0), ed)
+        if bool(rd[0]) != hit or ed > 1e-9:
+            viol.append({"key": dict(key0, kind="relation-violated", relation="return_details=True gives the same wrenches"), "err": ed,
+                         "msg": "contact_forces(%s,%s, return_details=True): wrenches differ from the default call by %.3g (relative)" % (k1, k2, ed)})
+        det = rd[3]
+        if hit and isinstance(det, dict) and "contact_forces" in det:
+            fs = np.sum(np.asarray(det["contact_forces"], float), axis=0)
+            e2 = float(np.linalg.norm(fs - w21[:3])) / f
+            if e2 > 1e-6:
+                viol.append({"key": dict(key0, kind="relation-violated", relation="details: sum of polygon forces = f21"), "err": e2,
+                             "msg": "sum of details['contact_forces'] differs from the world-frame force f21 by %.3g of |f|" % e2})
+    except Exception as e:  # noqa: BLE001
+        viol.append({"key": dict(key0, kind="exception", exc=type(e).__name__, where="return_details"), "err": None,
+                     "msg": "contact_forces(return_details=True) raised %s: %s" % (type(e).__name__, str(e)[:160])})
     # swap (fresh bodies)
     a, b = bodies()
     r = call(b, a, "swapped")
@@ -127,20 +148,41 @@ def run_case(rng, idx, tier):
         viol.append({"key": dict(key0, kind="exception", exc=type(e).__name__, where="history"), "err": None, "msg": "history raised %s: %s" % (type(e).__name__, str(e)[:160])})
     # tree based vs brute force broad phase
     try:
+        from distance3d.aabb_tree import all_aabbs_overlap
+
+        def state_based(a, b, tag):
+            """same body state, no re-expression in between: candidate pair sets must be exactly equal"""
+            _, _, _, pt = a.aabb_tree.overlaps_aabb_tree(b.aabb_tree)
+            _, _, pb = all_aabbs_overlap(np.ascontiguousarray(a.aabbs), np.ascontiguousarray(b.aabbs))
+            st = sorted((int(i), int(j)) for i, j in pt); sb = sorted((int(i), int(j)) for i, j in pb)
+            if st != sb:
+                viol.append({"key": dict(key0, kind="tree-broad-phase-differs", sub=tag), "err": float(len(set(st) ^ set(sb))),
+                             "msg": "%s: aabb_tree reports %d candidate pairs, all_aabbs_overlap %d on the same body state (symmetric difference %d)" % (
+                                 tag, len(st), len(sb), len(set(st) ^ set(sb)))})
         a, b = bodies(); cs0 = hc.find_contact_surface(a, b, use_aabb_trees=False)
         a, b = bodies(); cs1 = hc.find_contact_surface(a, b, use_aabb_trees=True)
         ev["tree_vs_bruteforce"] += 1
         s0 = sorted(zip(map(int, cs0.intersecting_tetrahedra1), map(int, cs0.intersecting_tetrahedra2)))
         s1 = sorted(zip(map(int, cs1.intersecting_tetrahedra1), map(int, cs1.intersecting_tetrahedra2)))
         if s0 != s1 or bool(cs0.intersection) != bool(cs1.intersection):
-            viol.append({"key": dict(key0, kind="tree-broad-phase-differs"), "err": float(len(set(s0) ^ set(s1))),
-                         "msg": "use_aabb_trees=True reports %d intersecting pairs, brute force %d (symmetric difference %d)" % (len(s1), len(s0), len(set(s0) ^ set(s1)))})
-        # history for the tree: body b is used again after a has been re-expressed elsewhere
-        cs2 = hc.find_contact_surface(a, b, use_aabb_trees=True)
-        s2 = sorted(zip(map(int, cs2.intersecting_tetrahedra1), map(int, cs2.intersecting_tetrahedra2)))
-        if s2 != s0:
-            viol.append({"key": dict(key0, kind="tree-broad-phase-differs", sub="repeat"), "err": float(len(set(s0) ^ set(s2))),
-                         "msg": "use_aabb_trees=True on the same bodies again: %d pairs vs %d" % (len(s2), len(s0))})
+            viol.append({"key": dict(key0, kind="tree-broad-phase-differs", sub="fresh"), "err": float(len(set(s0) ^ set(s1))),
+                         "msg": "use_aabb_trees=True reports %d intersecting pairs, brute force %d on identical fresh bodies (symmetric difference %d)" % (len(s1), len(s0), len(set(s0) ^ set(s1)))})
+        state_based(a, b, "after first tree query")
+        # history: body a is re-expressed in other frames (third body, moved partner) and queried through the trees again
+        G2 = O.pose(gen.rand_rot(rng), rng.normal(size=3) * 0.05)
+        b_moved = hydro.make_body(k2, p2, G2 @ T2); b_moved.youngs_modulus = E[1]
+        cs2 = hc.find_contact_surface(a, b_moved, use_aabb_trees=True)
+        state_based(a, b_moved, "after re-expression (moved partner)")
+        a2 = hydro.make_body(k1, p1, T1); a2.youngs_modulus = E[0]
+        b_moved2 = hydro.make_body(k2, p2, G2 @ T2); b_moved2.youngs_modulus = E[1]
+        cs3 = hc.find_contact_surface(a2, b_moved2, use_aabb_trees=False)
+        n2, n3 = len(cs2.intersecting_tetrahedra1), len(cs3.intersecting_tetrahedra1)
+        s2 = set(zip(map(int, cs2.intersecting_tetrahedra1), map(int, cs2.intersecting_tetrahedra2)))
+        s3 = set(zip(map(int, cs3.intersecting_tetrahedra1), map(int, cs3.intersecting_tetrahedra2)))
+        # end-to-end (inputs differ by the rounding of one more re-expression): sets agree up to borderline pairs
+        if len(s2 ^ s3) > max(2, 0.05 * max(n2, n3)) or (bool(cs2.intersection) != bool(cs3.intersection) and max(n2, n3) > 2):
+            viol.append({"key": dict(key0, kind="tree-broad-phase-differs", sub="history"), "err": float(len(s2 ^ s3)),
+                         "msg": "tree query on a re-expressed body: %d intersecting pairs, brute force on fresh bodies %d (symmetric difference %d)" % (n2, n3, len(s2 ^ s3))})
     except Exception as e:  # noqa: BLE001
         viol.append({"key": dict(key0, kind="exception", exc=type(e).__name__, where="use_aabb_trees"), "err": None,
                      "msg": "find_contact_surface(use_aabb_trees) raised %s: %s" % (type(e).__name__, str(e)[:160])})
